@@ -3,6 +3,7 @@ package main
 import (
 	"fmt"
 	"math/big"
+	"reflect"
 	"regexp"
 	"sort"
 	"strconv"
@@ -167,7 +168,59 @@ func decodeAndCheck(typ, value string) (resp string, decPanic, chkPanic bool) {
 		defer func() { recover() }()
 		val = showValue(rule.Value)
 	}()
+	// the decoded value belongs to the caller: after the caller has overwritten it, decoding the same
+	// text again must give the same value (decoders hand out no shared memory)
+	func() {
+		defer func() { recover() }()
+		scribble(reflect.ValueOf(rule.Value), 0)
+		again, err2 := rules_lib.EventRuleModel{Type: typ, Value: value}.Decode()
+		if err2 != nil {
+			sharedMem = fmt.Sprintf("decodes to %s, but decoding the same text again after the caller changed that value fails: %v", val, err2)
+		} else if v2 := showValue(again.Value); v2 != val {
+			sharedMem = fmt.Sprintf("decodes to %s, but after the caller changed that value the same text decodes to %s", val, v2)
+		}
+	}()
 	return "ok " + val + " check=" + chk, false, chkPanic
+}
+
+// set by decodeAndCheck when a decoder hands out shared memory (read and cleared by the handler)
+var sharedMem string
+
+// overwrite everything reachable from a decoded value that the caller can write to
+func scribble(v reflect.Value, depth int) {
+	if depth > 4 || !v.IsValid() {
+		return
+	}
+	switch v.Kind() {
+	case reflect.Interface, reflect.Ptr:
+		if !v.IsNil() {
+			scribble(v.Elem(), depth+1)
+		}
+	case reflect.Struct:
+		for i := 0; i < v.NumField(); i++ {
+			scribble(v.Field(i), depth+1)
+		}
+	case reflect.Slice:
+		for i := 0; i < v.Len(); i++ {
+			scribble(v.Index(i), depth+1)
+		}
+	case reflect.Int, reflect.Int8, reflect.Int16, reflect.Int32, reflect.Int64:
+		if v.CanSet() {
+			v.SetInt(v.Int() + 77)
+		}
+	case reflect.Uint, reflect.Uint8, reflect.Uint16, reflect.Uint32, reflect.Uint64:
+		if v.CanSet() {
+			v.SetUint((v.Uint() + 77) % 200)
+		}
+	case reflect.Float32, reflect.Float64:
+		if v.CanSet() {
+			v.SetFloat(v.Float() + 77)
+		}
+	case reflect.String:
+		if v.CanSet() {
+			v.SetString(v.String() + "~")
+		}
+	}
 }
 
 func rulesHandler(args []string) (string, []string) {
@@ -185,6 +238,10 @@ func rulesHandler(args []string) (string, []string) {
 		}
 		if cp {
 			ps.add("C09", "type=%s value=%q decodes but Check panics", typ, value)
+		}
+		if sharedMem != "" {
+			ps.add("C08", "type=%s value=%q %s", typ, value, sharedMem)
+			sharedMem = ""
 		}
 		if typ == "duration" && strings.HasPrefix(resp, "ok dur ") {
 			if x, err := utils.ParseDuration(value); err == nil {
